@@ -507,9 +507,9 @@ func TestCheck(t *testing.T) {
 	rec.Observe("jump: number of armed vclock timers after an operation (more than one would mean an abandoned timer); counted as jump.observed_more_than_one_armed_timer, not judged - the statement does not speak about timers")
 	rec.Observe("order of the Entries() slice (sorted by Next as of the last loop iteration, unstable among equals): snapshots are compared as sets keyed by ID")
 	rec.Note("require", []string{"starts.compared", "lockstep.entries_compared", "jump.multi_activation_jumps", "jump.starts_once_per_wake", "racing.same_instant.total", "racing.ops_at_activation_instant", "racing.parked.wake", "racing.parked.arm", "racing.parked.timer", "racing.same_instant.remove_vs_wake.started", "racing.same_instant.remove_vs_wake.not_started", "racing.same_instant.stop_vs_wake.not_started", "racing.same_instant.stop_vs_wake.wake_first_all_due_required", "racing.same_instant.entries_vs_transition.saw_pre", "racing.same_instant.entries_vs_transition.saw_post", "stopctx.seen_not_done_while_job_blocked", "stopctx.done_after_jobs_returned", "restart.recomputed", "hook.wake", "hook.arm"})
-	nLock := mon.Pick(900, 45000)
+	nLock := mon.Pick(900, 40000)
 	nJump := mon.Pick(500, 25000)
-	nRace := mon.Pick(600, 30000)
+	nRace := mon.Pick(1000, 35000)
 	var ps []plan
 	for i := 0; i < nLock; i++ {
 		ps = append(ps, plan{"lockstep"})
